@@ -16,6 +16,14 @@ CANDS = {'jsx': ' @jsx h ', 'jsx2': ' @jsx  custom ', 'words': ' @jsx h and more
          'frag': ' @jsxFrag F ', 'noname': ' @jsx ', 'noat': ' jsx h ', 'plain': ' just a comment ', 'jsdoc': '* @jsx h ', 'jsdocnl': '*\n * @jsx h\n ',
          'glued': '@jsxh', 'member': ' @jsx React.createElement ', 'tab': '\t@jsx\th\t', 'mid': ' see @jsx h ', 'upper': ' @JSX h '}
 BODY = 'const _0 = <div id="a">t<b/></div>;\nfunction g() {{ @INNER@return <><Foo/></>; }}\n@MID@const _1 = <Foo>{{v1}}</Foo>;\n'
+# further element populations: elements that end up inside withDirectives(...), models on components, spreads, slot objects, member tags
+BODIES = {
+    None: BODY,
+    'dirs': 'const _0 = <div id="a"><p v-show={{v1}}>x</p><b/></div>;\nfunction g() {{ @INNER@return <><input v-model={{v1}}/></>; }}\n'
+            '@MID@const _1 = <Foo><li v-focus={{[v1, "arg"]}}><b/></li></Foo>;\n',
+    'misc': 'const _0 = <Foo {{...v1}} class="a"><Bar v-model={{v1}}/>{{v1}}</Foo>;\nfunction g() {{ @INNER@return <><div v-html={{v1}}/><a.b c="1"/></>; }}\n'
+            '@MID@const _1 = <Foo v-slots={{{{ s: () => <i>t</i> }}}}><textarea v-model={{[v1, ["trim"]]}}/></Foo>;\n',
+}
 
 
 def make_skeleton(spec):
@@ -39,9 +47,9 @@ def make_skeleton(spec):
     head = cm(spec.get('head'), 0) + cm(spec.get('head2'), 3)        # head2: a second comment in the same leading group
     mid = cm(spec.get('mid'), 1) + cm(spec.get('mid2'), 4)
     inner = cm(spec.get('inner'), 2)
-    src = head + 'const v1 = 0;\n' + BODY.replace('@INNER@', inner).replace('@MID@', mid)
+    src = head + 'const v1 = 0;\n' + BODIES[spec.get('body')].replace('@INNER@', inner).replace('@MID@', mid)
     opts = {'optimize': False}
-    sk = Skeleton('c15#%s|%s|%s|%s%s' % (spec.get('head'), spec.get('mid'), spec.get('inner'), spec.get('pragma'), '|%s|%s' % (spec.get('head2'), spec.get('mid2')) if spec.get('head2') or spec.get('mid2') else ''), src, leaves, opts,
+    sk = Skeleton('c15#%s|%s|%s|%s%s' % (spec.get('head'), spec.get('mid'), spec.get('inner'), spec.get('pragma'), ('|%s|%s' % (spec.get('head2'), spec.get('mid2')) if spec.get('head2') or spec.get('mid2') else '') + ('|' + spec['body'] if spec.get('body') else '')), src, leaves, opts,
                   pragma=spec.get('pragma'), meta={'family': 'c15'})
     return sk
 
@@ -234,6 +242,14 @@ def jobs(tier):
             if n <= 7 or tier != 'quick':
                 out.append({'head': ('jsdoc', 'sym%d' % n), 'pragma': pragma})
             out.append({'mid': ('line', 'sym%d' % n), 'pragma': pragma})
+        for body in ('dirs', 'misc'):
+            out.append({'pragma': pragma, 'body': body})
+            for st in styles:
+                out.append({'head': (st, 'jsx'), 'pragma': pragma, 'body': body})
+            out.append({'mid': ('block', 'jsx2'), 'pragma': pragma, 'body': body})
+            out.append({'inner': ('block', 'jsx'), 'pragma': pragma, 'body': body})
+            out.append({'head': ('block', 'imp'), 'mid': ('line', 'frag'), 'pragma': pragma, 'body': body})
+            out.append({'head': ('block', 'sym6'), 'pragma': pragma, 'body': body})
     return [{'module': MOD, 'spec': s, 'max_paths': 60000} for s in out]
 
 
